@@ -22,6 +22,8 @@ def apply(b, kw):
         return tuple(kw[p] for p in b[1:])
     if op == "const":
         return b[1]
+    if op == "rsubc":  # constant minus argument
+        return b[2] - kw[b[1]]
     if op == "mark":
         return (b[2], kw[b[1]])
     if op == "id":
@@ -55,6 +57,8 @@ def cond(c, kw) -> bool:
         return len(kw[c[1]]) < c[2]
     if op == "ge":
         return kw[c[1]] >= c[2]
+    if op == "gtp":  # one argument greater than another
+        return kw[c[1]] > kw[c[2]]
     if op == "true":
         return True
     if op == "false":
